@@ -31,6 +31,16 @@ Proof.
   now rewrite rev_app_distr, payload_app, P1, P2.
 Qed.
 
+Definition nosend (t : titem) : Prop := match t with TSend _ => False | _ => True end.
+Lemma payload_nosend l : Forall nosend l -> payload l = [].
+Proof. induction 1 as [|x l Hx _ IH]; [reflexivity|]. destruct x; cbn [payload]; try exact IH. destruct Hx. Qed.
+Lemma sent_between_nosend w w' items : out w' = items ++ out w -> Forall nosend items -> sent_between w w' [].
+Proof. intros E H. exists items. split; [exact E|]. apply payload_nosend, Forall_rev, H. Qed.
+Lemma nosend_map_pfx b l : Forall nosend (map (TPfx b) l).
+Proof. induction l; constructor; [exact I|assumption]. Qed.
+Lemma nosend_map_key b l : Forall nosend (map (TKey b) l).
+Proof. induction l; constructor; [exact I|assumption]. Qed.
+
 Definition accepts_all (w : world) : Prop := Forall (fun x => 0 < x) (sends w).
 
 (* same socket, same tables, same environment except the send script and the trace *)
@@ -81,7 +91,7 @@ Proof.
     + rewrite E3. f_equal. unfold zlen. rewrite skipn_length. unfold zlen in Hn. lia.
     + split; [|split; [exact Ha2|]].
       * unfold same_but_out in *. intuition congruence.
-      * rewrite <- (firstn_skipn (Z.to_nat n) b) at 2. eapply sent_between_trans; [|exact Hsb].
+      * rewrite <- (firstn_skipn (Z.to_nat n) b) at 1. eapply sent_between_trans; [|exact Hsb].
         exists [TSend (firstn (Z.to_nat n) b)]. split; [exact Ho|]. cbn. apply app_nil_r.
 Qed.
 
@@ -124,6 +134,514 @@ Proof.
   rewrite E. exists w'. auto.
 Qed.
 
-(* one write when the transport takes everything at once *)
-Lemma sent_between_single w w' b : sends w = [] -> True.
-Proof. auto. Qed.
+
+(* ---------- C05 (4): the frame ---------- *)
+(* the session bookkeeping is untouched, or the socket will ask for a reset *)
+Definition F (w w' : world) : Prop :=
+  req_sess (sk w') = true \/
+  (req_sess (sk w') = req_sess (sk w) /\ session_id (sk w') = session_id (sk w) /\ serial (sk w') = serial (sk w)).
+
+Lemma F_refl w : F w w. Proof. unfold F; auto. Qed.
+Lemma F_trans a b c : F a b -> F b c -> F a c.
+Proof.
+  unfold F. intros [A|(A1 & A2 & A3)] [B|(B1 & B2 & B3)]; auto.
+  - left. congruence.
+  - right. repeat split; congruence.
+Qed.
+Lemma L_F a b : L a b -> F a b.
+Proof. intros (_ & _ & H). apply core_fields in H. unfold F. right. intuition auto. Qed.
+Lemma M_F a b : M a b -> F a b.
+Proof.
+  intros (_ & _ & A3 & A4 & _ & A6). unfold F. destruct (req_sess (sk a)) eqn:E; [left; congruence|right; auto].
+Qed.
+
+(* what the next query will be is then the same, or a Reset Query *)
+Lemma F_next_query w w' : F w w' -> next_query (sk w') = next_query (sk w) \/ next_query (sk w') = QReset.
+Proof.
+  unfold F, next_query. intros [H|(H1 & H2 & H3)]; [right; now rewrite H|left; now rewrite H1, H2, H3].
+Qed.
+
+Notation relF := (rel F).
+Ltac ffin :=
+  unfold F;
+  cbn [sk pfx keys st version session_id req_sess serial last_update refresh_iv expire_iv retry_iv iv_mode has_recv resetting
+       upd_st upd_version upd_session upd_req upd_serial upd_last upd_ivs upd_hasrecv upd_resetting];
+  try (right; repeat split; reflexivity); try (left; reflexivity).
+Ltac fprim := unfold rel; unfold_prims; ffin.
+
+Ltac flem :=
+  match goal with
+  | |- relF (change_state _) _ => apply (rel_mono L F _ _ L_F), (okrel_rel L), change_state_okL
+  | |- relF (send_error_pdu _ _ _) _ => apply (rel_mono L F _ _ L_F), (okrel_rel L), send_error_pdu_okL
+  | |- relF (send_error_from_host _ _ _) _ => apply (rel_mono L F _ _ L_F), (okrel_rel L), send_error_from_host_okL
+  | |- relF (send_serial_query) _ => apply (rel_mono L F _ _ L_F), (okrel_rel L), send_serial_query_okL
+  | |- relF (send_reset_query) _ => apply (rel_mono L F _ _ L_F), (okrel_rel L), send_reset_query_okL
+  | |- relF (recv_err _) _ => apply (rel_mono L F _ _ L_F), (okrel_rel L), recv_err_okL
+  | |- relF (handle_error_pdu _) _ => apply (rel_mono L F _ _ L_F), (okrel_rel L), handle_error_pdu_okL
+  | |- relF (report_update_failure _ _ _) _ => apply (rel_mono L F _ _ L_F), (okrel_rel L), report_update_failure_okL
+  | |- relF (tr_recv_all _ _) _ => apply (rel_mono L F _ _ L_F), tr_recv_all_L
+  | |- relF (tr_open) _ => apply (rel_mono L F _ _ L_F), tr_open_L
+  | |- relF (receive_pdu _) _ => apply (rel_mono L F _ _ L_F), receive_pdu_L
+  | |- relF (wait_for_sync) _ => apply (rel_mono L F _ _ L_F), wait_for_sync_L
+  end.
+
+Ltac fstepF :=
+  match goal with
+  | |- relF (ret _) _ => apply (rel_ret F F_refl)
+  | |- relF (bind get_sk _) ?w => apply (rel_bind F F_trans); [fprim | let H := fresh "Heq" in intros ? ? H; unfold_prims_in H; injection H as <- <-]
+  | |- relF (bind get_now _) ?w => apply (rel_bind F F_trans); [fprim | let H := fresh "Heq" in intros ? ? H; unfold_prims_in H; injection H as <- <-]
+  | |- relF (bind get_w _) ?w => apply (rel_bind F F_trans); [fprim | let H := fresh "Heq" in intros ? ? H; unfold_prims_in H; injection H as <- <-]
+  | |- relF (bind _ _) ?w => apply (rel_bind F F_trans); [ | intros ? ? ?Heq]
+  | |- relF (if ?c then _ else _) _ => destruct c eqn:?
+  | |- relF (match ?x with _ => _ end) _ => destruct x eqn:?
+  | |- relF ((fun _ => _) _) _ => cbv beta
+  | |- relF (let _ := _ in _) _ => cbv zeta
+  end.
+
+Lemma src_remove_all_F w : relF src_remove_all w.
+Proof. unfold src_remove_all. repeat fstepF; try fprim. Qed.
+Lemma purge_after_failed_undo_F w : relF purge_after_failed_undo w.
+Proof. unfold purge_after_failed_undo. repeat fstepF; try apply src_remove_all_F; try fprim. Qed.
+Lemma purge_outdated_F w : relF purge_outdated w.
+Proof. unfold purge_outdated. repeat fstepF; try apply src_remove_all_F; try fprim. Qed.
+Lemma rtr_stop_F w : relF rtr_stop w.
+Proof. unfold rtr_stop. repeat fstepF; try flem; try apply src_remove_all_F; try (fprim; fail). Qed.
+Lemma dump_F tag w : relF (dump tag) w.
+Proof. unfold rel, dump. unfold_prims. ffin. Qed.
+
+(* result-dependent part: everything but the successful branch *)
+Notation crelF := (crel F (fun r : Z => r <> 0)).
+
+Lemma apply_eod_intervals_F s p :
+  req_sess (apply_eod_intervals s p) = req_sess s /\ session_id (apply_eod_intervals s p) = session_id s /\
+  serial (apply_eod_intervals s p) = serial s.
+Proof. destruct (apply_eod_intervals_core s p) as (A & B & C & _). auto. Qed.
+
+Ltac cstepF :=
+  match goal with
+  | |- crelF (ret _) _ => first [ solve [unfold crel, ret; intros _; apply F_refl] ]
+  | |- crelF (bind get_sk _) ?w => apply (crel_bind F F_trans); [fprim | let H := fresh "Heq" in intros ? ? H; unfold_prims_in H; injection H as <- <-]
+  | |- crelF (bind get_w _) ?w => apply (crel_bind F F_trans); [fprim | let H := fresh "Heq" in intros ? ? H; unfold_prims_in H; injection H as <- <-]
+  | |- crelF (bind (modify_sk (fun s => upd_serial s _)) (fun _ => ret 0)) _ =>
+      unfold crel; unfold_prims; let H := fresh in intros H; exfalso; apply H; reflexivity
+  | |- crelF (bind _ _) ?w => apply (crel_bind F F_trans); [ | intros ? ? ?Heq]
+  | |- crelF (if ?c then _ else _) _ => destruct c eqn:?
+  | |- crelF (match ?x with _ => _ end) _ => destruct x eqn:?
+  | |- crelF ((fun _ => _) _) _ => cbv beta
+  | |- crelF (let _ := _ in _) _ => cbv zeta
+  end.
+
+Lemma process_eod_F p v4 v6 ks w : crelF (process_eod p v4 v6 ks) w.
+Proof.
+  unfold process_eod.
+  repeat cstepF; try flem; try apply purge_after_failed_undo_F; try (fprim; fail).
+  all: try (unfold rel; unfold_prims; unfold F; cbn [sk]; right; apply apply_eod_intervals_F).
+  all: try (repeat fstepF; try flem; try (fprim; fail)).
+Qed.
+
+Lemma store_loop_F fuel : forall v4 v6 ks w, crelF (store_loop fuel v4 v6 ks) w.
+Proof.
+  induction fuel as [|f IH]; intros; cbn [store_loop]; [unfold crel, ret; intros _; apply F_refl|].
+  repeat cstepF; try flem; try apply IH; try apply process_eod_F.
+Qed.
+
+Lemma receive_and_store_F fuel w : crelF (receive_and_store fuel) w.
+Proof.
+  unfold crel. rewrite receive_and_store_eq. pose proof (store_loop_F fuel [] [] [] w) as H. unfold crel in H.
+  destruct (store_loop fuel [] [] [] w) as [r w1|e w1]; [|exact H].
+  intros Hr. eapply F_trans; [exact (H Hr)|].
+  pose proof (clear_resetting_facts w1) as (_ & _ & _ & A1 & A2 & A3 & _). unfold F. right. auto.
+Qed.
+
+Lemma sync_first_F fuel w : relF (sync_first fuel) w.
+Proof.
+  apply (rel_mono L F _ _ L_F). unfold rel. pose proof (sync_first_spec fuel w) as H. unfold post in H.
+  destruct (sync_first fuel w); [exact (proj1 H)|exact H].
+Qed.
+
+Lemma sync_tail_F fuel w :
+  crelF (mdo r <- receive_and_store fuel;
+         if r =? 0 then mdo _ <- modify_sk (fun s => upd_req s false); mdo t <- get_now;
+                        mdo _ <- modify_sk (fun s => upd_last s t); ret 0
+         else ret (-1)) w.
+Proof.
+  unfold crel. unfold bind at 1. pose proof (receive_and_store_F fuel w) as H. unfold crel in H.
+  destruct (receive_and_store fuel w) as [r w1|e w1]; [|exact H].
+  destruct (r =? 0) eqn:E.
+  - unfold_prims. intros Hc. exfalso. apply Hc. reflexivity.
+  - unfold ret. intros _. apply H. now apply Z.eqb_neq.
+Qed.
+
+Lemma rtr_sync_F fuel w : crelF (rtr_sync fuel) w.
+Proof.
+  unfold rtr_sync.
+  repeat (first [ match goal with |- crelF (bind (receive_and_store _) _) _ => apply sync_tail_F end | cstepF ]);
+    try flem; try apply sync_first_F.
+  all: repeat fstepF; try flem; try (fprim; fail).
+  all: unfold rel; unfold_prims; unfold F; cbn [sk req_sess upd_session upd_resetting]; left;
+       destruct (negb _); cbn [req_sess upd_resetting]; assumption.
+Qed.
+
+(* one iteration of the state machine is a successful synchronisation *)
+Definition step_succ (fuel : nat) (w : world) : bool :=
+  (st (sk w) =? c_RTR_SYNC) && match rtr_sync fuel w with Ok r _ => r =? 0 | Exc _ _ => false end.
+
+Lemma fsm_step_F fuel w : step_succ fuel w = false -> relF (fsm_step fuel) w.
+Proof.
+  intros Hs. unfold fsm_step.
+  repeat (lazymatch goal with |- relF (bind (rtr_sync _) _) _ => fail | _ => fstepF end);
+    try flem; try apply purge_outdated_F; try (fprim; fail).
+  (* state SYNC *)
+  unfold step_succ in Hs.
+  match goal with H : (st (sk w) =? c_RTR_SYNC) = true |- _ => rewrite H in Hs end. cbn [andb] in Hs.
+  unfold rel. unfold bind at 1. pose proof (rtr_sync_F fuel w) as HF. unfold crel in HF.
+  destruct (rtr_sync fuel w) as [r w1|e w1]; [|exact HF].
+  rewrite Hs. unfold ret. apply HF. now apply Z.eqb_neq.
+Qed.
+
+Definition stop_restart : world -> res unit :=
+  mdo _ <- rtr_stop; mdo _ <- dump 1; modify_sk (fun s => upd_st s c_RTR_CONNECTING).
+
+Lemma stop_restart_F w : relF stop_restart w.
+Proof. unfold stop_restart. repeat fstepF; try apply rtr_stop_F; try apply dump_F; try (fprim; fail). Qed.
+
+(* no iteration of the first n is a successful synchronisation *)
+Fixpoint quiet (n fuel : nat) (w : world) : Prop :=
+  match n with
+  | O => True
+  | S n' =>
+    step_succ fuel w = false /\
+    match fsm_step fuel w with
+    | Ok _ w' => quiet n' fuel w'
+    | Exc (XEnd _) _ => True
+    | Exc XStop w' => match stop_restart w' with Ok _ w2 => quiet n' fuel w2 | Exc _ _ => True end
+    end
+  end.
+
+Theorem run_fsm_F n fuel : forall w, quiet n fuel w -> F w (run_fsm n fuel w).
+Proof.
+  induction n as [|n IH]; intros w Hq; cbn [run_fsm]; [apply F_refl|].
+  destruct Hq as [Hs Hq]. pose proof (fsm_step_F fuel w Hs) as H. unfold rel in H.
+  destruct (fsm_step fuel w) as [[] w'|[why|] w'].
+  - eapply F_trans; [exact H|apply IH; exact Hq].
+  - exact H.
+  - pose proof (stop_restart_F w') as Hr. unfold rel in Hr. unfold stop_restart in *.
+    destruct ((mdo _ <- rtr_stop; mdo _ <- dump 1; modify_sk (fun s => upd_st s c_RTR_CONNECTING)) w') as [[] w2|e w2].
+    + eapply F_trans; [exact H|]. eapply F_trans; [exact Hr|apply IH; exact Hq].
+    + eapply F_trans; eauto.
+Qed.
+
+(* ---------- C05 (5): what makes the next query a Reset Query ---------- *)
+Definition reset_pending (w : world) : Prop := req_sess (sk w) = true /\ serial (sk w) = 0.
+
+Lemma purge_outdated_keeps_reset w : reset_pending w -> post purge_outdated w (fun _ w' => reset_pending w') (fun _ _ => False).
+Proof.
+  intros [H1 H2]. unfold purge_outdated, post, bind, get_sk, get_now.
+  destruct (last_update (sk w) =? 0); [unfold ret; split; assumption|].
+  destruct (last_update (sk w) + expire_iv (sk w) <? now w); [|unfold ret; split; assumption].
+  destruct (src_remove_all_spec w) as (w1 & E & _ & _ & E3). rewrite E.
+  unfold modify_sk, bind, get_sk, set_sk. unfold reset_pending. cbn [sk req_sess serial upd_resetting upd_last upd_serial upd_req]. auto.
+Qed.
+
+(* expiry: the records are older than expire_interval when the socket (re)connects *)
+Theorem purge_outdated_fires w :
+  last_update (sk w) <> 0 -> last_update (sk w) + expire_iv (sk w) < now w ->
+  exists w', purge_outdated w = Ok tt w' /\ reset_pending w' /\ own_p (pfx w') = [] /\ own_k (keys w') = [] /\
+             oth_p (pfx w') = oth_p (pfx w) /\ oth_k (keys w') = oth_k (keys w) /\
+             last_update (sk w') = 0 /\ resetting (sk w') = true.
+Proof.
+  intros H1 H2. unfold purge_outdated, bind, get_sk, get_now.
+  destruct (last_update (sk w) =? 0) eqn:E0; [apply Z.eqb_eq in E0; congruence|].
+  destruct (last_update (sk w) + expire_iv (sk w) <? now w) eqn:E1; [|apply Z.ltb_ge in E1; lia].
+  destruct (src_remove_all_spec w) as (w1 & E & P1 & P2 & E3). rewrite E.
+  unfold modify_sk, bind, get_sk, set_sk. eexists. split; [reflexivity|].
+  unfold reset_pending. cbn [sk pfx keys req_sess serial last_update resetting upd_resetting upd_last upd_serial upd_req].
+  rewrite P1, P2. unfold own_p, oth_p, own_k, oth_k. rewrite !own_oth_nil, !oth_oth. auto 10.
+Qed.
+
+(* a Cache Reset answer: state ERROR_NO_INCR_UPDATE_AVAIL, whose handler asks for a new session *)
+Theorem fsm_no_incr_resets fuel w :
+  st (sk w) = c_RTR_ERROR_NO_INCR_UPDATE_AVAIL ->
+  exists w', fsm_step fuel w = Ok tt w' /\ reset_pending w' /\ st (sk w') = c_RTR_RESET.
+Proof.
+  intros Hst. unfold fsm_step, bind at 1, get_sk. rewrite Hst. cbn [Z.eqb Pos.eqb c_RTR_ERROR_NO_INCR_UPDATE_AVAIL c_RTR_CONNECTING c_RTR_RESET c_RTR_SYNC c_RTR_ESTABLISHED c_RTR_FAST_RECONNECT c_RTR_ERROR_NO_DATA_AVAIL].
+  unfold bind at 1, set_sk. unfold bind at 1, change_state, bind at 1, get_sk. cbn [sk st upd_serial upd_req].
+  rewrite Hst. cbn [Z.eqb Pos.eqb c_RTR_ERROR_NO_INCR_UPDATE_AVAIL c_RTR_RESET c_RTR_SHUTDOWN].
+  unfold bind at 1, set_sk, emit. cbn [sk pfx keys evs opens sends now out].
+  match goal with |- exists w', purge_outdated ?x = _ /\ _ => set (w1 := x) end.
+  assert (R1 : reset_pending w1) by (unfold reset_pending, w1; cbn; auto).
+  pose proof (purge_outdated_keeps_reset w1 R1) as HP. unfold post in HP.
+  assert (S1 : st (sk w1) = c_RTR_RESET) by reflexivity.
+  assert (HS : post purge_outdated w1 (fun _ w' => st (sk w') = st (sk w1)) (fun _ _ => True)).
+  { unfold purge_outdated, post, bind, get_sk, get_now.
+    destruct (last_update (sk w1) =? 0); [reflexivity|]. destruct (_ <? _); [|reflexivity].
+    destruct (src_remove_all_spec w1) as (w2 & E & _ & _ & E3). rewrite E. unfold modify_sk, bind, get_sk, set_sk. cbn. now rewrite E3. }
+  unfold post in HS. destruct (purge_outdated w1) as [[] w'|]; [|contradiction].
+  exists w'. repeat split; try apply HP. congruence.
+Qed.
+
+(* a "no data available" error report: state ERROR_NO_DATA_AVAIL, same handler plus the retry sleep *)
+Theorem fsm_no_data_resets fuel w :
+  st (sk w) = c_RTR_ERROR_NO_DATA_AVAIL ->
+  exists w', fsm_step fuel w = Ok tt w' /\ reset_pending w' /\ st (sk w') = c_RTR_RESET.
+Proof.
+  intros Hst. unfold fsm_step, bind at 1, get_sk. rewrite Hst. cbn [Z.eqb Pos.eqb c_RTR_ERROR_NO_INCR_UPDATE_AVAIL c_RTR_CONNECTING c_RTR_RESET c_RTR_SYNC c_RTR_ESTABLISHED c_RTR_FAST_RECONNECT c_RTR_ERROR_NO_DATA_AVAIL].
+  unfold bind at 1, set_sk. unfold bind at 1, change_state, bind at 1, get_sk. cbn [sk st upd_serial upd_req].
+  rewrite Hst. cbn [Z.eqb Pos.eqb c_RTR_ERROR_NO_DATA_AVAIL c_RTR_RESET c_RTR_SHUTDOWN].
+  unfold bind at 1, set_sk, emit. cbn [sk pfx keys evs opens sends now out].
+  unfold bind at 1, do_sleep. cbn [sk pfx keys evs opens sends now out].
+  match goal with |- exists w', purge_outdated ?x = _ /\ _ => set (w1 := x) end.
+  assert (R1 : reset_pending w1) by (unfold reset_pending, w1; cbn; auto).
+  pose proof (purge_outdated_keeps_reset w1 R1) as HP. unfold post in HP.
+  assert (HS : post purge_outdated w1 (fun _ w' => st (sk w') = st (sk w1)) (fun _ _ => True)).
+  { unfold purge_outdated, post, bind, get_sk, get_now.
+    destruct (last_update (sk w1) =? 0); [reflexivity|]. destruct (_ <? _); [|reflexivity].
+    destruct (src_remove_all_spec w1) as (w2 & E & _ & _ & E3). rewrite E. unfold modify_sk, bind, get_sk, set_sk. cbn. now rewrite E3. }
+  unfold post in HS. destruct (purge_outdated w1) as [[] w'|]; [|contradiction].
+  exists w'. repeat split; try apply HP. rewrite HS. reflexivity.
+Qed.
+
+(* rtr_stop *)
+Theorem rtr_stop_resets w :
+  exists w', rtr_stop w = Ok tt w' /\ reset_pending w' /\ own_p (pfx w') = [] /\ own_k (keys w') = [] /\
+             oth_p (pfx w') = oth_p (pfx w) /\ oth_k (keys w') = oth_k (keys w) /\ last_update (sk w') = 0.
+Proof.
+  unfold rtr_stop. unfold bind at 1, emit.
+  destruct (okrel_inv L (change_state c_RTR_SHUTDOWN) _ (change_state_okL c_RTR_SHUTDOWN
+             (mkW (sk w) (pfx w) (keys w) (evs w) (opens w) (sends w) (now w) (TStopping :: out w)))) as ([] & w1 & E1 & (P1 & K1 & _)).
+  unfold bind at 1. rewrite E1. cbn [pfx keys] in P1, K1.
+  unfold bind at 1, tr_close, emit. unfold bind at 1, modify_sk, bind at 1, get_sk, set_sk.
+  cbn [sk pfx keys evs opens sends now out].
+  match goal with |- exists w', bind src_remove_all _ ?x = _ /\ _ => set (w2 := x) end.
+  destruct (src_remove_all_spec w2) as (w3 & E & Q1 & Q2 & Q3). unfold bind at 1. rewrite E.
+  unfold bind, get_sk, set_sk. eexists. split; [reflexivity|].
+  unfold reset_pending. cbn [sk pfx keys]. rewrite Q1, Q2, Q3. unfold w2. cbn [sk pfx keys req_sess serial last_update upd_st upd_last upd_serial upd_req].
+  rewrite P1, K1. unfold own_p, oth_p, own_k, oth_k. rewrite !own_oth_nil, !oth_oth. auto 10.
+Qed.
+
+(* ---------- state changes ---------- *)
+Lemma change_state_spec ns w :
+  st (sk w) <> c_RTR_SHUTDOWN ->
+  exists w', change_state ns w = Ok tt w' /\ st (sk w') = ns /\ L w w' /\ sends w' = sends w /\
+             sent_between w w' [] /\ now w' = now w /\ evs w' = evs w /\ opens w' = opens w /\ version (sk w') = version (sk w).
+Proof.
+  intros Hst. unfold change_state, bind, get_sk.
+  destruct (st (sk w) =? ns) eqn:E1.
+  - apply Z.eqb_eq in E1. exists w. unfold ret. repeat split; auto. apply sent_between_refl.
+  - destruct (st (sk w) =? c_RTR_SHUTDOWN) eqn:E2; [apply Z.eqb_eq in E2; congruence|].
+    unfold set_sk, emit. eexists. split; [reflexivity|]. cbn [sk pfx keys sends now evs opens out st upd_st version].
+    repeat split; auto. exists [TState ns]. auto.
+Qed.
+
+(* ---------- C05 (2): which query is sent ---------- *)
+(* state RESET: a Reset Query *)
+Theorem fsm_reset_sends_reset_query fuel w :
+  st (sk w) = c_RTR_RESET -> accepts_all w ->
+  exists w', fsm_step fuel w = Ok tt w' /\ sent_between w w' (reset_query_bytes (sk w)) /\
+             st (sk w') = c_RTR_SYNC /\ L w w'.
+Proof.
+  intros Hst Ha. unfold fsm_step, bind at 1, get_sk. rewrite Hst.
+  cbn [Z.eqb Pos.eqb c_RTR_CONNECTING c_RTR_RESET].
+  assert (Hns : st (sk w) <> c_RTR_SHUTDOWN) by (rewrite Hst; discriminate).
+  destruct (send_reset_query_bytes w Hns Ha) as (w1 & E1 & (S1 & S2 & S3 & _) & A1 & B1).
+  unfold bind at 1. rewrite E1. cbn [Z.eqb].
+  assert (Hns1 : st (sk w1) <> c_RTR_SHUTDOWN) by (rewrite S1; exact Hns).
+  destruct (change_state_spec c_RTR_SYNC w1 Hns1) as (w' & E2 & T1 & T2 & _ & T3 & _).
+  exists w'. split; [exact E2|]. split; [|split; [exact T1|]].
+  - rewrite <- (app_nil_r (reset_query_bytes (sk w))). eapply sent_between_trans; eauto.
+  - eapply L_trans; [|exact T2]. unfold L. rewrite S1, S2, S3. auto.
+Qed.
+
+Definition expired (w : world) : bool :=
+  negb (last_update (sk w) =? 0) && (last_update (sk w) + expire_iv (sk w) <? now w).
+
+(* state CONNECTING, the transport opens, a session is held and the data has not expired: that Serial Query *)
+Theorem fsm_connecting_sends_serial_query fuel w os :
+  st (sk w) = c_RTR_CONNECTING -> opens w = true :: os -> accepts_all w ->
+  req_sess (sk w) = false -> expired w = false ->
+  exists w', fsm_step fuel w = Ok tt w' /\ sent_between w w' (serial_query_bytes (sk w)) /\
+             st (sk w') = c_RTR_SYNC /\ L w w'.
+Proof.
+  intros Hst Hop Ha Hrq Hex. unfold fsm_step, bind at 1, get_sk. rewrite Hst. cbn [Z.eqb c_RTR_CONNECTING].
+  unfold bind at 1, set_sk. unfold bind at 1.
+  set (w0 := mkW (upd_hasrecv (sk w) false) (pfx w) (keys w) (evs w) (opens w) (sends w) (now w) (out w)).
+  assert (Hp : purge_outdated w0 = Ok tt w0).
+  { unfold purge_outdated, bind, get_sk, get_now. unfold expired in Hex. unfold w0. cbn [sk last_update expire_iv upd_hasrecv now].
+    destruct (last_update (sk w) =? 0); [reflexivity|]. cbn [negb andb] in Hex. now rewrite Hex. }
+  rewrite Hp. unfold bind at 1, tr_open. unfold w0 at 1. cbn [opens]. rewrite Hop. cbn [negb].
+  unfold bind at 1, get_sk. unfold w0. cbn [sk pfx keys evs opens sends now out req_sess upd_hasrecv]. rewrite Hrq.
+  match goal with |- exists w', bind send_serial_query _ ?x = _ /\ _ => set (w1 := x) end.
+  assert (Hns : st (sk w1) <> c_RTR_SHUTDOWN) by (unfold w1; cbn [sk st upd_hasrecv]; rewrite Hst; discriminate).
+  assert (Ha1 : accepts_all w1) by exact Ha.
+  destruct (send_serial_query_bytes w1 Hns Ha1) as (w2 & E1 & (S1 & S2 & S3 & _) & A1 & B1).
+  unfold bind at 1. rewrite E1. cbn [Z.eqb].
+  assert (Hns2 : st (sk w2) <> c_RTR_SHUTDOWN) by (rewrite S1; exact Hns).
+  destruct (change_state_spec c_RTR_SYNC w2 Hns2) as (w' & E2 & T1 & T2 & _ & T3 & _).
+  exists w'. split; [exact E2|]. split; [|split; [exact T1|]].
+  - rewrite <- (app_nil_r (serial_query_bytes (sk w))).
+    eapply sent_between_trans; [|exact T3].
+    change (serial_query_bytes (sk w)) with ([] ++ serial_query_bytes (sk w1)).
+    eapply sent_between_trans; [|exact B1]. exists [TOpen true (now w)]. auto.
+  - eapply L_trans; [|exact T2]. unfold L. rewrite S1, S2, S3. unfold w1. cbn. auto.
+Qed.
+
+(* state CONNECTING, no session held or the data expired: no query in this iteration, next state RESET
+   (whose only action is the Reset Query) *)
+Theorem fsm_connecting_goes_to_reset fuel w os :
+  st (sk w) = c_RTR_CONNECTING -> opens w = true :: os ->
+  req_sess (sk w) = true \/ expired w = true ->
+  exists w', fsm_step fuel w = Ok tt w' /\ sent_between w w' [] /\ st (sk w') = c_RTR_RESET /\ req_sess (sk w') = true.
+Proof.
+  intros Hst Hop Hc. unfold fsm_step, bind at 1, get_sk. rewrite Hst. cbn [Z.eqb c_RTR_CONNECTING].
+  unfold bind at 1, set_sk. unfold bind at 1.
+  set (w0 := mkW (upd_hasrecv (sk w) false) (pfx w) (keys w) (evs w) (opens w) (sends w) (now w) (out w)).
+  assert (Hp : exists w1, purge_outdated w0 = Ok tt w1 /\ req_sess (sk w1) = true /\ st (sk w1) = c_RTR_CONNECTING /\
+                          opens w1 = opens w /\ sent_between w w1 [] /\ now w1 = now w).
+  { unfold purge_outdated, bind, get_sk, get_now.
+    assert (Hnf : req_sess (sk w) = true -> exists w1, ret tt w0 = Ok tt w1 /\ req_sess (sk w1) = true /\ st (sk w1) = c_RTR_CONNECTING /\
+                          opens w1 = opens w /\ sent_between w w1 [] /\ now w1 = now w).
+    { intros H. exists w0. unfold w0. cbn [ret sk pfx keys evs opens sends now out req_sess st upd_hasrecv].
+      repeat split; auto. exists []. auto. }
+    unfold expired in Hc. unfold w0 at 1 2 3 4. cbn [sk last_update expire_iv upd_hasrecv now].
+    destruct (last_update (sk w) =? 0) eqn:E0.
+    { destruct Hc as [Hc|Hc]; [auto|cbn in Hc; discriminate]. }
+    destruct (last_update (sk w) + expire_iv (sk w) <? now w) eqn:E1.
+    2:{ destruct Hc as [Hc|Hc]; [auto|cbn in Hc; discriminate]. }
+    unfold src_remove_all, modify_sk. unfold_prims. eexists. split; [reflexivity|]. unfold w0.
+    cbn [sk pfx keys evs opens sends now out req_sess st upd_hasrecv upd_resetting upd_last upd_serial upd_req].
+    repeat split; auto.
+    eapply sent_between_nosend; [cbn [out]; rewrite app_assoc; reflexivity|].
+    apply Forall_app. split; apply Forall_rev; [apply nosend_map_key|apply nosend_map_pfx]. }
+  destruct Hp as (w1 & Hp & R1 & S1 & O1 & U1 & N1). rewrite Hp.
+  unfold bind at 1, tr_open. rewrite O1, Hop. cbn [negb]. unfold bind at 1, get_sk. cbn [sk]. rewrite R1.
+  match goal with |- exists w', change_state _ ?x = _ /\ _ => set (w2 := x) end.
+  assert (Hns : st (sk w2) <> c_RTR_SHUTDOWN) by (unfold w2; cbn [sk]; rewrite S1; discriminate).
+  destruct (change_state_spec c_RTR_RESET w2 Hns) as (w' & E2 & T1 & (_ & _ & T2) & _ & T3 & _).
+  exists w'. split; [exact E2|]. split; [|split; [exact T1|]].
+  - change (@nil byte) with (@nil byte ++ [] ++ []). eapply sent_between_trans; [exact U1|].
+    eapply sent_between_trans; [|exact T3]. exists [TOpen true (now w1)]. unfold w2. cbn [out]. auto.
+  - apply core_fields in T2. destruct T2 as (_ & T2 & _). rewrite T2. exact R1.
+Qed.
+
+(* state ESTABLISHED, after a Serial Notify or the refresh timeout: that Serial Query *)
+Theorem fsm_established_sends_serial_query fuel w w1 :
+  st (sk w) = c_RTR_ESTABLISHED -> wait_for_sync w = Ok 0 w1 ->
+  st (sk w1) <> c_RTR_SHUTDOWN -> accepts_all w1 ->
+  exists w', fsm_step fuel w = Ok tt w' /\ sent_between w1 w' (serial_query_bytes (sk w1)) /\
+             session_id (sk w1) = session_id (sk w) /\ serial (sk w1) = serial (sk w) /\ L w w'.
+Proof.
+  intros Hst Hw Hns Ha. unfold fsm_step, bind at 1, get_sk. rewrite Hst.
+  cbn [Z.eqb Pos.eqb c_RTR_CONNECTING c_RTR_RESET c_RTR_SYNC c_RTR_ESTABLISHED].
+  unfold bind at 1. rewrite Hw. cbn [Z.eqb].
+  pose proof (wait_for_sync_L w) as HL. unfold rel in HL. rewrite Hw in HL.
+  destruct (send_serial_query_bytes w1 Hns Ha) as (w2 & E1 & (S1 & S2 & S3 & _) & A1 & B1).
+  unfold bind at 1. rewrite E1. cbn [Z.eqb].
+  assert (Hns2 : st (sk w2) <> c_RTR_SHUTDOWN) by (rewrite S1; exact Hns).
+  destruct (change_state_spec c_RTR_SYNC w2 Hns2) as (w' & E2 & T1 & T2 & _ & T3 & _).
+  exists w'. split; [exact E2|]. split.
+  - rewrite <- (app_nil_r (serial_query_bytes (sk w1))). eapply sent_between_trans; eauto.
+  - pose proof HL as (_ & _ & HC). apply core_fields in HC. destruct HC as (C1 & _ & C3 & _).
+    split; [exact C1|]. split; [exact C3|].
+    eapply L_trans; [exact HL|]. eapply L_trans; [|exact T2]. unfold L. rewrite S1, S2, S3. auto.
+Qed.
+
+(* a fresh socket has no session: its first query is a Reset Query (by the two theorems above) *)
+Lemma init_sock_requests_session r e t m : req_sess (init_sock r e t m) = true /\ serial (init_sock r e t m) = 0.
+Proof. split; reflexivity. Qed.
+
+(* ---------- how the two error states are reached ---------- *)
+Lemma type_tests p t : nthb p 1 = t -> forall c, (nthb p 1 =? c) = (t =? c).
+Proof. intros ->. reflexivity. Qed.
+
+(* a Cache Reset as answer *)
+Theorem rtr_sync_cache_reset fuel w p w1 :
+  sync_first fuel w = Ok (Some p) w1 -> nthb p 1 = c_CACHE_RESET -> st (sk w1) <> c_RTR_SHUTDOWN ->
+  exists w', rtr_sync fuel w = Ok (-1) w' /\ st (sk w') = c_RTR_ERROR_NO_INCR_UPDATE_AVAIL /\ L w w'.
+Proof.
+  intros Hsf Hty Hns. unfold rtr_sync, bind at 1. rewrite Hsf. cbv zeta.
+  rewrite !(type_tests p _ Hty). cbn [Z.eqb Pos.eqb c_CACHE_RESET c_ERROR c_CACHE_RESPONSE].
+  destruct (change_state_spec c_RTR_ERROR_NO_INCR_UPDATE_AVAIL w1 Hns) as (w' & E & T1 & T2 & _).
+  unfold bind. rewrite E. exists w'. split; [reflexivity|]. split; [exact T1|].
+  destruct (post_ok _ _ _ _ _ _ (sync_first_spec fuel w) Hsf) as [HL _]. eapply L_trans; eauto.
+Qed.
+
+(* an Error Report "no data available" as answer *)
+Theorem rtr_sync_no_data fuel w p w1 :
+  sync_first fuel w = Ok (Some p) w1 -> nthb p 1 = c_ERROR -> get16 p 2 = c_NO_DATA_AVAIL -> st (sk w1) <> c_RTR_SHUTDOWN ->
+  exists w', rtr_sync fuel w = Ok (-1) w' /\ st (sk w') = c_RTR_ERROR_NO_DATA_AVAIL /\ L w w'.
+Proof.
+  intros Hsf Hty Hcode Hns. unfold rtr_sync, bind at 1. rewrite Hsf. cbv zeta.
+  rewrite !(type_tests p _ Hty). cbn [Z.eqb Pos.eqb c_ERROR].
+  unfold handle_error_pdu. rewrite Hcode. cbn [Z.eqb Pos.eqb c_NO_DATA_AVAIL].
+  destruct (change_state_spec c_RTR_ERROR_NO_DATA_AVAIL w1 Hns) as (w' & E & T1 & T2 & _).
+  unfold bind. rewrite E. exists w'. split; [reflexivity|]. split; [exact T1|].
+  destruct (post_ok _ _ _ _ _ _ (sync_first_spec fuel w) Hsf) as [HL _]. eapply L_trans; eauto.
+Qed.
+
+(* ---------- C05 (6): foreign sessions ---------- *)
+(* an Error Report that encapsulates no PDU *)
+Definition error_report_nopdu (s : sock) (code : Z) (text : list byte) : list byte :=
+  [version s mod 256; c_ERROR] ++ enc16 code ++ enc32 (16 + 0 + zlen text) ++ enc32 0 ++ [] ++ enc32 (zlen text) ++ text.
+Definition wrong_session_report (s : sock) : list byte := error_report_nopdu s c_CORRUPT_DATA txt_wrong_session.
+
+Lemma send_error_nopdu_spec code text w :
+  st (sk w) <> c_RTR_SHUTDOWN -> accepts_all w ->
+  exists w', send_error_from_host [] code text w = Ok 0 w' /\ same_but_out w w' /\ accepts_all w' /\
+             sent_between w w' (error_report_nopdu (sk w) code text).
+Proof.
+  intros Hns Ha. unfold send_error_from_host. change (zlen (@nil byte) =? 0) with true. cbv iota.
+  unfold send_error_pdu, bind, get_sk. change (2 <=? zlen (@nil byte)) with false. cbn [andb].
+  change (zlen (@nil byte)) with 0. fold (error_report_nopdu (sk w) code text).
+  apply send_pdu_spec; auto. discriminate.
+Qed.
+
+Theorem rtr_sync_foreign_cache_response fuel w p w1 :
+  sync_first fuel w = Ok (Some p) w1 -> nthb p 1 = c_CACHE_RESPONSE ->
+  req_sess (sk w) = false -> get16 p 2 <> session_id (sk w) ->
+  st (sk w1) <> c_RTR_SHUTDOWN -> accepts_all w1 ->
+  exists w', rtr_sync fuel w = Ok (-1) w' /\ st (sk w') = c_RTR_ERROR_FATAL /\ L w w' /\
+             sent_between w1 w' (wrong_session_report (sk w1)).
+Proof.
+  intros Hsf Hty Hrq Hsid Hns Ha. unfold rtr_sync, bind at 1. rewrite Hsf. cbv zeta.
+  destruct (post_ok _ _ _ _ _ _ (sync_first_spec fuel w) Hsf) as [HL _].
+  pose proof HL as (_ & _ & HC). apply core_fields in HC. destruct HC as (C1 & C2 & _).
+  rewrite !(type_tests p _ Hty). cbn [Z.eqb Pos.eqb c_CACHE_RESPONSE c_ERROR c_CACHE_RESET].
+  unfold bind at 1, get_sk. rewrite C2, Hrq.
+  destruct (negb (session_id (sk w1) =? get16 p 2)) eqn:E.
+  2:{ apply negb_false_iff, Z.eqb_eq in E. congruence. }
+  destruct (send_error_nopdu_spec c_CORRUPT_DATA txt_wrong_session w1 Hns Ha) as (w2 & E1 & (S1 & S2 & S3 & _) & A1 & B1).
+  assert (Hns2 : st (sk w2) <> c_RTR_SHUTDOWN) by (rewrite S1; exact Hns).
+  destruct (change_state_spec c_RTR_ERROR_FATAL w2 Hns2) as (w' & E2 & T1 & T2 & _ & T3 & _).
+  unfold bind. rewrite E1, E2. unfold ret. cbn [negb].
+  exists w'. split; [reflexivity|]. split; [exact T1|]. split.
+  - eapply L_trans; [exact HL|]. eapply L_trans; [|exact T2]. unfold L. rewrite S1, S2, S3. auto.
+  - unfold wrong_session_report. rewrite <- (app_nil_r (error_report_nopdu _ _ _)). eapply sent_between_trans; eauto.
+Qed.
+
+(* an End of Data of another session: -1, nothing applied *)
+Theorem process_eod_foreign p v4 v6 ks w :
+  get16 p 2 <> session_id (sk w) ->
+  exists w', process_eod p v4 v6 ks w = Ok (-1) w' /\ L w w'.
+Proof.
+  intros Hs. unfold process_eod, bind at 1, get_sk.
+  destruct (negb (get16 p 2 =? session_id (sk w))) eqn:E.
+  2:{ apply negb_false_iff, Z.eqb_eq in E. congruence. }
+  destruct (okrel_inv L _ w (send_error_from_host_okL p c_CORRUPT_DATA (txt_eod_session (session_id (sk w)) (get16 p 2)) w))
+    as (a & w1 & E1 & L1).
+  destruct (okrel_inv L _ w1 (change_state_okL c_RTR_ERROR_FATAL w1)) as (b & w2 & E2 & L2).
+  unfold bind. rewrite E1, E2. exists w2. split; [reflexivity|eapply L_trans; eauto].
+Qed.
+
+(* ---------- C05 (3): after a successful synchronisation ---------- *)
+Theorem rtr_sync_success_bookkeeping fuel w w' :
+  NoDup (pfx w) -> NoDup (keys w) -> rtr_sync fuel w = Ok 0 w' ->
+  exists cr eod v4 v6 ks,
+    response_received fuel w cr eod v4 v6 ks /\
+    req_sess (sk w') = false /\ serial (sk w') = get32 eod 8 /\ session_id (sk w') = get16 eod 2 /\
+    get16 cr 2 = get16 eod 2 /\ (req_sess (sk w) = false -> session_id (sk w) = get16 cr 2) /\
+    next_query (sk w') = QSerial (get16 eod 2) (get32 eod 8).
+Proof.
+  intros NP NK E. pose proof (rtr_sync_C03 fuel w NP NK) as H. rewrite E in H.
+  destruct H as (_ & _ & [(_ & (cr & eod & v4 & v6 & ks & H1 & _ & _ & H2 & H3 & H4 & H5 & H6 & _))|(Hr & _)]); [|congruence].
+  exists cr, eod, v4, v6, ks. repeat split; auto. unfold next_query. now rewrite H6, H2, H3.
+Qed.
